@@ -275,8 +275,55 @@ def search_globs(ctx):
                          {"case": c, "file": f, "result": r["files"][f]})
 
 
+ALIAS_FILE = "from os import (\n    getpid,\n    getcwd,\n    sep,\n)\nimport sys\nimport json, re\n\nprint(sep)\n"
+ALIAS_LINES = {"getpid": 2, "getcwd": 3, "sys": 6, "json": 7, "re": 7}      # unused names and the line each one is written on
+
+
+def alias_case(case):
+    """unused-imports on a parenthesised from-import with one name per line: a `path:line` pattern speaks about the line of the
+    *name*, not about the first line of the statement"""
+    root = common.tmpdir("c13a")
+    try:
+        proj = root / "p"
+        e2e.write_project(proj, {"mod.py": ALIAS_FILE})
+        args = ["--codemod-include", "pixee:python/unused-imports"]
+        if case["E"]: args += ["--path-exclude", ",".join(f"mod.py:{L}" for L in case["E"])]
+        if case["I"]: args += ["--path-include", ",".join(f"mod.py:{L}" for L in case["I"])]
+        r = e2e.run(proj, args)
+        after = (proj / "mod.py").read_text()
+        import re as _re
+        left = {n for n in ALIAS_LINES if _re.search(r"\b" + n + r"\b", after.split("print(")[0])}
+        lines = sorted({c["lineNumber"] for res in (r["report"] or {}).get("results", []) for cs in res["changeset"] for c in cs["changes"]})
+        return {"rc": r["rc"], "removed": sorted(set(ALIAS_LINES) - left), "report_lines": lines, "after": after}
+    finally:
+        shutil.rmtree(root, ignore_errors=True)
+
+
+def search_alias_lines(ctx):
+    cases = [{"E": [], "I": []}] + [{"E": [L], "I": []} for L in (2, 3, 6, 7)] + [{"E": [], "I": [L]} for L in (2, 3, 6, 7)] + [{"E": [3, 6], "I": []}, {"E": [], "I": [2, 7]}]   # (excludes together with includes: the general enumeration, with its recorded finding)
+    for c, r in zip(cases, impl.pool_map(alias_case, cases)):
+        if r[0] != "ok":
+            ctx.broke("c13 alias-line harness", r[1]); continue
+        r = r[1]
+        permitted = lambda L: L not in c["E"] and (not c["I"] or L in c["I"])
+        want = sorted(n for n, L in ALIAS_LINES.items() if permitted(L))
+        ctx.search_case("cli-alias-lines", c, want != sorted(ALIAS_LINES))
+        if r["rc"] != ["exit", 0]:
+            ctx.fail({"kind": "cli-crash", "codemod": "pixee:python/unused-imports"}, f"CLI failed {r['rc']}", {"case": c})
+        elif r["removed"] != want:
+            extra = [n for n in r["removed"] if n not in want]
+            ctx.fail({"kind": "line-not-permitted-rewritten" if extra else "permitted-line-not-fixed", "codemod": "pixee:python/unused-imports", "spelling": "rel", "layout": "one-name-per-line"},
+                     f"unused-imports with E={c['E']} I={c['I']}: removed {r['removed']}, the permitted unused names are {want}", {"case": c, "result": r})
+        else:
+            want_lines = sorted({ALIAS_LINES[n] for n in want})
+            if r["report_lines"] != want_lines:
+                ctx.fail({"kind": "change-line", "codemod": "pixee:python/unused-imports", "layout": "one-name-per-line"},
+                         f"unused-imports with E={c['E']} I={c['I']}: change entries name lines {r['report_lines']}, the removed names are on lines {want_lines}", {"case": c, "result": r})
+
+
 def search(ctx):
     search_globs(ctx)
+    search_alias_lines(ctx)
     from codemodder.codemods.semgrep import SemgrepRuleDetector
     from codemodder.registry import load_registered_codemods
 
